@@ -18,6 +18,7 @@ from ..core import (
     ContainerValueMixin,
     Field,
     Schema,
+    config_schema,
     copy_basic_value,
     isconfigtype,
 )
@@ -102,6 +103,8 @@ class ListProxy(list, ContainerValueMixin):
                 cfg._parent = self.cfg
                 cfg.load_tree(value)  # type: ignore
             elif isinstance(value, Config):
+                if value._schema is not config_schema(self.item_field):
+                    raise ValueError("configuration was created from a different schema")
                 value._parent = self.cfg
                 value._key = self.list_field._key
                 value._container = self
